@@ -107,22 +107,22 @@ theorem withPeek_bad {r : Bytes} (h : BadHead r) (pos : Nat) (i : Nat) (payload 
   rw [withPeek_cons env _ hw]
   simp [h7]
 
-include hext hflt hap in
+include hext hflt in
 /-- enums -/
-theorem agree_enum (vs : List (Bytes × VariantShape)) (f t : Nat) (v : JV) (hv : VOK v) (hd : DepthOK env t v)
+theorem agree_enum (vs : List (Bytes × VariantShape)) (f t : Nat) (v : JV) (hv : VOKg v) (hd : DepthOK env t v)
     (hp : ∀ k x kvs, v = .obj ((k, x) :: kvs) → ∀ sh, (k, sh) ∈ vs →
       Agree1w (dePayload env (t + 1) (deTyped env f) sh) (payloadFV cfg' ext' sh x) (T ext x))
     (hex : ∀ k x, v = .obj [(k, x)] → ∀ sh, (k, sh) ∈ vs →
       FromValue.shapeDe cfg' ext' sh (some x) = payloadFV cfg' ext' sh x) :
     Agree1 (deTyped env (f + 1) t (.enum_ vs)) (FromValue.fromValue cfg' ext' (.enum_ vs) v) (T ext v) := by
   intro rest pos hs
-  obtain ⟨c, tl, hT, hc⟩ := T_head ext hext v hv
+  obtain ⟨c, tl, hT, hc⟩ := T_head_g ext hext v hv
   have hw := (headOf_facts hc).1
   have ht := headOf_tests hc
   rw [deTyped_enum]
   cases v with
   | str variant =>
-    have hu : Spec.Utf8.validUtf8 variant = true := by simpa [VOK, shapeW] using hv
+    have hu : Spec.Utf8.validUtf8 variant = true := vokg_str hv
     have hTq : T ext (.str variant) = quote variant := by rw [T_str_eq, quote_eq]
     have hde : deEnum env t (deTyped env f) vs (quote variant ++ rest) pos =
         (deVariantId env (variantNames vs) (quote variant ++ rest) pos).bind fun iv r1 p1 =>
@@ -197,7 +197,7 @@ theorem agree_enum (vs : List (Bytes × VariantShape)) (f t : Nat) (v : JV) (hv 
       exact fun x r' p => peekInvalidType_not_ok _ _ _ _ _ _
     | cons kv kvs' =>
       obtain ⟨k, x⟩ := kv
-      obtain ⟨hu, hvx⟩ := vok_member _ (k, x) (by simp) hv
+      obtain ⟨hu, hvx⟩ := vokg_member _ (k, x) (by simp) hv
       have htxt : Tmembers ext ((k, x) :: kvs') ++ 0x7d :: rest = quote k ++ 0x3a :: (T ext x ++ (Tmtail ext kvs' ++ 0x7d :: rest)) := by
         rw [Tmembers_cons]; simp [List.append_assoc]
       have hid := deVariantId_quote hflt (variantNames vs) k hu (0x3a :: (T ext x ++ (Tmtail ext kvs' ++ 0x7d :: rest))) (pos + 1)
